@@ -333,4 +333,59 @@ theorem withFrame_obs (hs : LawfulSqrt sq) (c : V3 K) (m : K) (pi : V3 K) (f : Q
   simp only [MP3.withFrame, massOf3, inertiaOf3, inv_spec, inv_inv, fieldNum_sqrt,
     sqrt_roundtrip sq hs _ hx, sqrt_roundtrip sq hs _ hy, sqrt_roundtrip sq hs _ hz, and_self]
 
+/-- `m (|c|² 1 − c cᵀ)`: the parallel-axis (Steiner) term of a point mass `m` at `c` -/
+def steiner3 (m : K) (c : V3 K) : M3 K :=
+  let n := c.x * c.x + c.y * c.y + c.z * c.z
+  ⟨⟨m * (n - c.x * c.x), m * (0 - c.x * c.y), m * (0 - c.x * c.z)⟩,
+   ⟨m * (0 - c.y * c.x), m * (n - c.y * c.y), m * (0 - c.y * c.z)⟩,
+   ⟨m * (0 - c.z * c.x), m * (0 - c.z * c.y), m * (n - c.z * c.z)⟩⟩
+
+/-- entrywise sum of matrices (spec side) -/
+def madd (a b : M3 K) : M3 K :=
+  ⟨⟨a.r0.x + b.r0.x, a.r0.y + b.r0.y, a.r0.z + b.r0.z⟩, ⟨a.r1.x + b.r1.x, a.r1.y + b.r1.y, a.r1.z + b.r1.z⟩,
+   ⟨a.r2.x + b.r2.x, a.r2.y + b.r2.y, a.r2.z + b.r2.z⟩⟩
+
+theorem shifted3_spec (p : MP3 K) (s : V3 K) :
+    letI := fieldNum K sq
+    p.shifted s = madd p.reconstruct (steiner3 (massOf3 p) s) := by
+  simp only [MP3.shifted, fieldNum_neq', massOf3]
+  by_cases h : p.invMass = 0
+  · simp only [h, decide_true, Bool.not_true, Bool.false_eq_true, if_false, inv_zero, steiner3, madd, zero_mul, add_zero]
+  · simp only [h, decide_false, Bool.not_false, if_true, M3.add, M3.sub, M3.smul, M3.diag, M3.outer, V3.add, V3.sub, V3.smul,
+      V3.normSq, V3.dot, steiner3, madd, one_div]
+    congr 1 <;> congr 1 <;> ring
+
+
+/-- transpose (spec side) -/
+def mtr (a : M3 K) : M3 K := ⟨⟨a.r0.x, a.r1.x, a.r2.x⟩, ⟨a.r0.y, a.r1.y, a.r2.y⟩, ⟨a.r0.z, a.r1.z, a.r2.z⟩⟩
+
+theorem m3_mul_assoc (A B C : M3 K) :
+    @M3.mul K (fieldNum K sq) (@M3.mul K (fieldNum K sq) A B) C = @M3.mul K (fieldNum K sq) A (@M3.mul K (fieldNum K sq) B C) := by
+  rcases A with ⟨⟨a00, a01, a02⟩, ⟨a10, a11, a12⟩, ⟨a20, a21, a22⟩⟩
+  rcases B with ⟨⟨b00, b01, b02⟩, ⟨b10, b11, b12⟩, ⟨b20, b21, b22⟩⟩
+  rcases C with ⟨⟨c00, c01, c02⟩, ⟨c10, c11, c12⟩, ⟨c20, c21, c22⟩⟩
+  simp only [M3.mul]
+  congr 1 <;> congr 1 <;> ring
+
+theorem toMat_mul (p q : Quat K) :
+    @Quat.toMat K (fieldNum K sq) (@Quat.mul K (fieldNum K sq) p q)
+      = @M3.mul K (fieldNum K sq) (@Quat.toMat K (fieldNum K sq) p) (@Quat.toMat K (fieldNum K sq) q) := by
+  rcases p with ⟨a, b, c, d⟩; rcases q with ⟨e, f, g, h⟩
+  simp only [Quat.mul, Quat.toMat, Iso3.qmul, M3.mul, fieldNum_two]
+  congr 1 <;> congr 1 <;> ring
+
+theorem toMat_inverse (q : Quat K) :
+    @Quat.toMat K (fieldNum K sq) (@Quat.inverse K (fieldNum K sq) q) = mtr (@Quat.toMat K (fieldNum K sq) q) := by
+  rcases q with ⟨e, f, g, h⟩
+  simp only [Quat.inverse, Quat.toMat, mtr, fieldNum_two]
+  congr 1 <;> congr 1 <;> ring
+
+theorem inverse_mul (p q : Quat K) :
+    @Quat.inverse K (fieldNum K sq) (@Quat.mul K (fieldNum K sq) p q)
+      = @Quat.mul K (fieldNum K sq) (@Quat.inverse K (fieldNum K sq) q) (@Quat.inverse K (fieldNum K sq) p) := by
+  rcases p with ⟨a, b, c, d⟩; rcases q with ⟨e, f, g, h⟩
+  simp only [Quat.mul, Quat.inverse, Iso3.qmul]
+  congr 1 <;> ring
+
+
 end C13
